@@ -72,7 +72,7 @@ def generate(rng, idx, tier, variant):
             al = {}
             for i in range(rng.randint(1, 3)):
                 al[f'AL{i}'] = rng.choice(names + list(al))
-            spec['aliases'] = al
+            spec['aliases'] = [[k_, v_] for k_, v_ in al.items()]
     elif fam == 'parser':
         prog = scripts.gen_program(rng, max_eq=3, max_lag=1, max_lead=1)
         while prog['lags'] + prog['leads'] + 1 > n:
@@ -186,6 +186,8 @@ def generate(rng, idx, tier, variant):
             if r < 0.4 and names:
                 nm = pick()[0]
                 nm = rng.choice([nm + 'x', nm.lower() + '_', nm[:-1] + 'Q' if len(nm) > 1 else nm + 'q'])  # near miss of a variable
+            elif r < 0.55:
+                nm = rng.choice(['eval', 'copy', 'reindex', 'add_variable', 'to_dataframe', 'replace_values', 'solve', 'solve_t_before', 'LAGS', 'NAMES', 'CODE', 'get_closest_match'])
             else:
                 nm = rng.choice(['note', 'meta', 'tag', 'zzz']) + str(rng.randrange(3))
             ops.append({'op': 'set_attr_plain', 'obj': p, 'name': nm, 'v': rng.randrange(100)})
@@ -240,8 +242,12 @@ def generate(rng, idx, tier, variant):
             if names and rng.random() < 0.4:
                 for nm, dt in rng.sample(names, min(len(names), rng.randint(1, 2))):
                     fills[nm] = rng.choice([1, 0, 3.5, True])
-            if rng.random() < 0.2:
-                fills[rng.choice(['status', 'iterations'])] = rng.choice(['X', 5]) if rng.random() < 0.5 else 5
+            if rng.random() < 0.3:
+                which = rng.choice(['status', 'iterations', 'both'])
+                if which in ('status', 'both'):
+                    fills['status'] = rng.choice(['X', '', 'F', 5])
+                if which in ('iterations', 'both'):
+                    fills['iterations'] = rng.choice([0, 5, 0, 'X', 2.5])
             if rng.random() < 0.2:
                 fills['NOPE'] = 1
             ops.append({'op': 'reindex', 'obj': p, 'idx': idxs, 'as': rng.choice(['same', 'same', 'list', 'np', 'pd']), 'fill_value': fv, 'fills': fills, 'strict': rng.choice([None, None, True, False])})
@@ -301,7 +307,7 @@ def build_first(fsic, spec):
         attrs = {}
         if 'alias' in fam:
             bases.append(AliasMixin)
-            attrs['ALIASES'] = dict(spec.get('aliases', {}))
+            attrs['ALIASES'] = dict(map(tuple, spec.get('aliases', [])))
         if 'tracer' in fam:
             bases.append(TracerMixin)
         if fam == 'pandasmixin':
@@ -328,8 +334,10 @@ def label_at(party, pos, form):
     return spans.label_forms(party.span_spec, party.obj.__dict__['span'], pos, form) if party.span_spec else party.labels[pos]
 
 
-def absent(party):
-    return spans.absent_label(party.span_spec) if party.span_spec else 'nope-absent'
+def absent(party, variant=0):
+    if party.span_spec:
+        return spans.absent_label(party.span_spec, variant, party.obj.__dict__['span'])
+    return 'nope-absent'
 
 
 def invariants(party, ctx, when):
@@ -619,7 +627,7 @@ def execute(schedule, ctx):
             elif nm in party.ref:
                 sty = party.span_spec['type'] if party.span_spec else 'custom'
                 if op['pos'] == 'absent':
-                    lab = absent(party)
+                    lab = absent(party, ctx.step % 3)
                     e = attempt(lambda: x.__setitem__((nm, lab), v))
                     ctx.probe(f'label-absent:{sty}')
                     ctx.check('C10', f'label/absent-must-raise-KeyError/span={sty}', isinstance(e, KeyError), {'exc': type(e).__name__ if e else None, 'label': repr(lab)})
@@ -644,8 +652,8 @@ def execute(schedule, ctx):
                     a = n - 1
                 if isinstance(b, int) and b >= n:
                     b = n - 1
-                la = None if a is None else absent(party) if a == 'absent' else label_at(party, a, op.get('fa', 0))
-                lb = None if b is None else absent(party) if b == 'absent' else label_at(party, b, op.get('fb', 0))
+                la = None if a is None else absent(party, ctx.step % 3) if a == 'absent' else label_at(party, a, op.get('fa', 0))
+                lb = None if b is None else absent(party, (ctx.step + 1) % 3) if b == 'absent' else label_at(party, b, op.get('fb', 0))
                 key = (nm, slice(la, lb, step))
                 if a == 'absent' or b == 'absent':
                     e = attempt(lambda: x.__setitem__(key, v))
@@ -672,7 +680,7 @@ def execute(schedule, ctx):
                 p = op['pos']
                 if -n <= p < n:
                     cls_, new = RC.expect_positions(party.ref[nm], int(p), v)
-                    how = step % 2
+                    how = ctx.step % 2
 
                     def fn():
                         arr = getattr(x, nm) if how else x[nm]
@@ -793,9 +801,13 @@ def execute(schedule, ctx):
 
         elif kind == 'set_attr_plain':
             nm = op['name']
-            if nm in d['index'] or hasattr(type(x), nm):
+            clsattr = hasattr(type(x), nm) and not isinstance(getattr(type(x), nm, None), property)
+            if nm in d['index'] or isinstance(getattr(type(x), nm, None), property) or (clsattr and not d['_strict']) or nm in d:
+                # (without strict, assigning over a method would only break the harness's own later calls)
                 outcome = 'skipped'
             else:
+                if clsattr:
+                    ctx.probe('strict-vs-class-attribute-name')
                 exists = nm in d['_attributes']
                 strict = bool(d['_strict'])
                 e = attempt(lambda: setattr(x, nm, op['v']))
@@ -850,7 +862,7 @@ def execute(schedule, ctx):
                 except Exception as e:
                     ctx.check('C10', f'slice-get/span={sty}/{shape}', False, {'exc': type(e).__name__, 'a': a, 'b': b, 'step': step})
                 read_paths(party, nm, ctx, [(min(op['pos'], n - 1), op.get('form', 0))])
-                lab = absent(party)
+                lab = absent(party, ctx.step % 3)
                 e = attempt(lambda: x[nm, lab])
                 ctx.check('C10', f'label/absent-get-must-raise-KeyError/span={sty}', isinstance(e, KeyError), {'exc': type(e).__name__ if e else None})
                 ctx.check('C09', 'contains', (nm in x) is True and ('nosuchvar' in x) is False, None)
@@ -919,7 +931,7 @@ def execute(schedule, ctx):
                 else:
                     class_before[cname] = O.obs_class(cls)
         ctx.outcome(kind, outcome)
-        ctx.log(step, kind, i, outcome)
+        ctx.log(ctx.step, kind, i, outcome)
         ctx.state([kind, outcome, [[str(a.dtype), canon(a.tolist())] for a in party.ref.values()][:6], bool(d['_strict'])])
 
 
